@@ -65,11 +65,17 @@ def run(tier, seed, jobs):
     plans = [{"cfg_ref": ("vf.props.c12", "cfg", ["shutdown"]), "alphabet": alphabet(tier), "depth": 3 if tier == "quick" else 4, "label": "shutdown()+start"}]
     plans.append({"cfg_ref": ("vf.props.c12", "cfg", ["expire"]), "alphabet": alphabet(tier), "depth": 2 if tier == "quick" else 3,
                   "label": "real run(): expiry after 30 min idle, relaunch"})
+    A = "A"
+    core = [{"s": A, "op": "append", "m": "INBOX", "flags": "\\Seen kw1"}, {"s": A, "op": "del", "set": "*"}, {"s": A, "op": "del", "set": "1"},
+            {"s": A, "op": "store", "set": "1:*", "mode": "+", "flags": "\\Answered kw2"}, {"s": A, "op": "rename", "m": "INBOX", "to": "old"},
+            {"s": A, "op": "delete", "m": "a"}, {"s": A, "op": "create", "m": "a"}, {"s": A, "op": "subscribe", "m": "a"}]
+    plans.append({"cfg_ref": ("vf.props.c12", "cfg", ["shutdown"]), "alphabet": core, "depth": 4 if tier == "quick" else 5,
+                  "label": "shutdown()+start, core alphabet, deep"})
     return run_h(PROP, RULES, plans, ("C12",), jobs, seed,
                  ["one client session; mailboxes INBOX(3), a, a/b (+ the five SPECIAL-USE mailboxes in the run() plan); pack threshold 3",
                   "differential oracle: observation before vs after the restart; nothing is compared with a hand-written expectation",
                   "flags compared modulo \\Recent and the derived `unseen`; RECENT counts not compared; \\Marked/\\Unmarked ignored in LIST"],
-                 time_budget=85 if tier == "quick" else 900)
+                 time_budget=170 if tier == "quick" else 900)
 
 
 def replay(rec):
